@@ -22,10 +22,8 @@ EXTENDS Naturals, Sequences, FiniteSets, TLC
 
 Range(s)      == {s[i] : i \in DOMAIN s}
 Has(s, x)     == \E i \in DOMAIN s : s[i] = x
-FirstIdx(s, x) == CHOOSE i \in DOMAIN s : s[i] = x /\ \A j \in 1..(i - 1) : s[j] # x     \* list.index(x)
-Index(s, x)   == CHOOSE i \in DOMAIN s : s[i] = x          \* the same on lists without duplicates
+Index(s, x)   == CHOOSE i \in DOMAIN s : s[i] = x          \* list.index(x); only used on lists without duplicates
 NoDup(s)      == \A i, j \in DOMAIN s : i # j => s[i] # s[j]
-Count(s, x)   == Cardinality({i \in DOMAIN s : s[i] = x})
 RECURSIVE Concat(_, _)
 Concat(ss, i) == IF i > Len(ss) THEN << >> ELSE ss[i] \o Concat(ss, i + 1)
 
@@ -236,7 +234,9 @@ TargetSeq(shape, links, i, acc) ==
   IF i > Len(links) THEN acc
   ELSE LET t == TargetNode(TargetKey(shape, links[i])) IN
        TargetSeq(shape, links, i + 1, IF Has(acc, t) THEN acc ELSE Append(acc, t))
-\* :423  sorted(targets, key=lambda x: len(split_key(x)))  (stable; ties cannot influence the graph, see MC_LinksInst)
+\* :423  sorted(targets, key=lambda x: len(split_key(x))) over a set: the order among targets of equal length is the
+\* set's, but it cannot influence the graph -- every edge added by :424-431 starts at a different node (the target
+\* itself), and all its end points were mentioned by :416-420 already
 SortByLen(ts) == LET mx == IF ts = << >> THEN 0 ELSE CHOOSE m \in {Len(ts[i]) : i \in DOMAIN ts} : \A i \in DOMAIN ts : Len(ts[i]) <= m
                  IN Concat([n \in 1..mx |-> LET K(x) == Len(x) = n IN SelectSeq(ts, K)], 1)
 \* :426-430  prefixes of a target, "init_args." glued to the following name, the full key excluded
@@ -249,12 +249,16 @@ PrefixEdgeSeq(ts, i, seen) ==
   ELSE LET K(q) == q \in seen
            ps   == SelectSeq(GluedPrefixes(ts[i]), K)
        IN [k \in DOMAIN ps |-> <<ts[i], ps[k]>>] \o PrefixEdgeSeq(ts, i + 1, seen \cup {ts[i]})
-\* instantiation_order:409-434
-InstantiationOrder(shape, links) ==
+\* instantiation_order:409-434.  repair = FALSE is the code as it is; repair = TRUE is the repair proposed in
+\* tools/design.d/C16.md (seen_targets = set(graph.nodes), loop over all targets): a nested target is connected to
+\* every enclosing graph node, not only to enclosing targets.
+InstantiationOrderR(shape, links, repair) ==
   IF links = << >> THEN [raised |-> FALSE, order |-> << >>]
   ELSE LET ts == SortByLen(TargetSeq(shape, links, 1, << >>))
-           es == LinkEdgeSeq(shape, links, 1) \o PrefixEdgeSeq(ts, 2, {ts[1]})
+           le == LinkEdgeSeq(shape, links, 1)
+           es == le \o (IF repair THEN PrefixEdgeSeq(ts, 1, NodesOf(EdgeSet(le))) ELSE PrefixEdgeSeq(ts, 2, {ts[1]}))
        IN AlgGraphRun(es)
+InstantiationOrder(shape, links) == InstantiationOrderR(shape, links, FALSE)
 
 \* reorder:437-447 over a sequence of items [d |-> dest, x |-> payload] (components: d = x = dest; link actions:
 \* d = target key, x = link index)
@@ -354,19 +358,21 @@ RunLoop(shape, m, comps, n) ==
   IF m.failed \/ n > Len(comps) THEN m
   ELSE LET m1 == ApplyFor(shape, m, comps[n]) IN
        RunLoop(shape, IF m1.failed THEN m1 ELSE Construct(shape, m1, comps[n]), comps, n + 1)
-AlgInstantiate(shape) ==
-  LET o  == InstantiationOrder(shape, shape.links)          \* :1227
+AlgInstantiateR(shape, repair) ==
+  LET o  == InstantiationOrderR(shape, shape.links, repair) \* :1227
       cs == PlannedComponents(shape, o.order)               \* :1228
       m  == RunLoop(shape, MachineInit, cs, 1)              \* :1231-1248
   IN IF m.failed THEN m ELSE ApplyRest(shape, m, o.order)   \* :1250
+AlgInstantiate(shape) == AlgInstantiateR(shape, FALSE)
 \* what the returned configuration holds for the plain link targets
 FinalPlain(shape, m) == [t \in shape.plains |-> IF t \in DOMAIN m.vals THEN m.vals[t] ELSE None]
 
 \* link_arguments one link at a time: the cycle check of ActionLink.__init__:193-198 runs instantiation_order over
 \* the links added so far (the new one included, :191) and turns its ValueError into the rejection
-RECURSIVE AlgAddLinks(_, _)
-AlgAddLinks(shape, n) ==
+RECURSIVE AlgAddLinksR(_, _, _)
+AlgAddLinksR(shape, n, repair) ==
   IF n > Len(shape.links) THEN << >>
-  ELSE IF InstantiationOrder(shape, SubLinks(shape.links, n)).raised THEN <<"rejected">>
-  ELSE <<"ok">> \o AlgAddLinks(shape, n + 1)
+  ELSE IF InstantiationOrderR(shape, SubLinks(shape.links, n), repair).raised THEN <<"rejected">>
+  ELSE <<"ok">> \o AlgAddLinksR(shape, n + 1, repair)
+AlgAddLinks(shape, n) == AlgAddLinksR(shape, n, FALSE)
 =============================================================================
